@@ -457,6 +457,11 @@ def analyse(repo):
     for info in infos.values():
         for ms in info.classes.values():
             all_methods |= ms
+    GENERATOR_FUNCTIONS.clear()
+    for info in infos.values():
+        for node in ast.walk(info.tree):
+            if isinstance(node, ast.FunctionDef) and any(isinstance(x, (ast.Yield, ast.YieldFrom)) for x in ast.walk(node)):
+                GENERATOR_FUNCTIONS.add(node.name)
     fns = []
     for m, info in infos.items():
         an = Analyzer(info, all_methods)
@@ -468,13 +473,22 @@ def analyse(repo):
                     if isinstance(n, ast.FunctionDef):
                         an.function(n, "%s.%s.%s" % (m, node.name, n.name), cls=node.name)
                     elif isinstance(n, (ast.Assign, ast.AnnAssign, ast.Expr, ast.Pass)):
-                        pass          # class-level tables: built once at import
+                        # class-level tables: built once at import (one-shot iterators are state, see below)
+                        if one_shot_iterator(getattr(n, "value", None)):
+                            f = Fn("%s.%s.<class body>" % (m, node.name))
+                            f.add("EWrite", ("unknown", "class-level one-shot iterator (consumed by its first use)"))
+                            an.out.append(f)
                     else:
                         f = Fn("%s.%s.<class body>" % (m, node.name))
                         f.add("EWrite", ("unknown", "class-level " + type(n).__name__))
                         an.out.append(f)
             elif isinstance(node, (ast.Import, ast.ImportFrom, ast.Assign, ast.AnnAssign, ast.Expr)):
-                pass              # import-time initialisation of module-level tables
+                # import-time initialisation of module-level tables: fine, unless the value is a one-shot iterator
+                # (zip / map / filter / iter / generator ...), which every use consumes - shared mutable state
+                if one_shot_iterator(getattr(node, "value", None)):
+                    f = Fn("%s.<module body>" % m)
+                    f.add("EWrite", ("unknown", "module-level one-shot iterator (consumed by its first use)"))
+                    an.out.append(f)
             else:
                 f = Fn("%s.<module body>" % m)
                 f.add("EWrite", ("unknown", "module-level " + type(node).__name__))
@@ -482,6 +496,25 @@ def analyse(repo):
         fns += an.out
         fns += table_summaries(m, info)
     return fns
+
+
+ITERATOR_MAKERS = {"zip", "map", "filter", "iter", "enumerate", "reversed", "open", "chain", "cycle", "count", "repeat", "islice"}
+
+
+GENERATOR_FUNCTIONS = set()     # names of psec functions that contain `yield` (filled by analyse)
+
+
+def one_shot_iterator(v):
+    """value expression that evaluates to an iterator object (stateful: consumed by use)"""
+    if v is None:
+        return False
+    if isinstance(v, ast.GeneratorExp):
+        return True
+    if isinstance(v, ast.Call):
+        f = v.func
+        name = f.id if isinstance(f, ast.Name) else (f.attr if isinstance(f, ast.Attribute) else None)
+        return name in ITERATOR_MAKERS or name in GENERATOR_FUNCTIONS
+    return False
 
 
 def table_summaries(m, info):
